@@ -651,10 +651,15 @@ fn float_exponent(input: &[u8]) -> LexResult<'_, Exponent> {
         _ => return wrong_chars(input),
     };
     let (input, s_opt) = opt(sign)(input)?;
-    let (input, exponent) = digits(input)?;
+    let (input, exponent_digits) = digit_sequence(input)?;
+    // Exponents beyond the range of i64 are far outside the range of any float so saturate
+    let mut exponent = 0i64;
+    for digit in exponent_digits {
+        exponent = exponent.saturating_mul(10).saturating_add(digit as i64);
+    }
     let exponent = match s_opt {
-        Some(Sign::Negative) => -(exponent as i64),
-        _ => exponent as i64,
+        Some(Sign::Negative) => -exponent,
+        _ => exponent,
     };
     Ok((input, Exponent(exponent)))
 }
@@ -674,41 +679,28 @@ fn test_exponent() {
     assert_eq!(p(b"."), wrong_chars(b"."));
 }
 
-/// Build a high precision float from each part of literal
+/// Build the closest double to the decimal value described by each part of the literal
 fn calculate_float64_from_parts(left: DigitSequence, right: DigitSequence, exponent: i64) -> f64 {
-    let mut left_combined = 0f64;
-    for digit in left {
-        left_combined *= 10f64;
-        left_combined += digit as f64;
+    // Rebuild the decimal text and let the standard library do a correctly rounded conversion
+    // Accumulating digit by digit in floating point drifts by an ulp and takes time proportional to the exponent
+    let mut text = String::with_capacity(left.len() + right.len() + 24);
+    for digit in &left {
+        text.push(char::from(b'0' + *digit as u8));
     }
-    let left_float = left_combined;
-
-    let mut right_combined = 0f64;
-    let right_len = right.len();
-    for digit in right {
-        right_combined *= 10f64;
-        right_combined += digit as f64;
+    if left.is_empty() {
+        text.push('0');
     }
-    let mut right_float = right_combined;
-    for _ in 0..right_len {
-        right_float /= 10f64;
+    text.push('.');
+    for digit in &right {
+        text.push(char::from(b'0' + *digit as u8));
     }
-
-    let mantissa = left_float + right_float;
-    let mut value64 = mantissa;
-    if exponent > 0 {
-        for _ in 0..exponent {
-            value64 *= 10f64;
-        }
-    } else {
-        let mut m = 1.0;
-        for _ in 0..(-exponent) {
-            m *= 10f64;
-        }
-        value64 /= m;
+    if right.is_empty() {
+        text.push('0');
     }
-
-    value64
+    text.push('e');
+    text.push_str(&exponent.to_string());
+    text.parse::<f64>()
+        .expect("decimal float text is always valid")
 }
 
 /// Parse a float literal
